@@ -40,6 +40,7 @@ type evSpec struct {
 	Prevs   []int   `json:"prevs,omitempty"` // indices of earlier events of the set (same or other DID)
 	Bump    int     `json:"bump,omitempty"`  // > 0: one more (external) prev whose clock lifts this event by Bump
 	TimeOff int     `json:"t"`               // signing time = t0 + TimeOff seconds
+	Rep     string  `json:"rep,omitempty"`   // representation of that instant as a Go time.Time: "" (UTC, as time.Date builds it) | unix-local | mono | zone | json-zone
 	Rank    int     `json:"rank"`            // first byte of the transaction reference (tie-break of the store's order)
 }
 
@@ -144,6 +145,47 @@ func buildPayload(didIdx int, d docSpec) []byte {
 	return b
 }
 
+// represent returns the SAME instant in another representation of time.Time (the store must order and compare
+// signing times by instant: a stored event's time went through JSON, an arriving one's did not).
+func represent(tm time.Time, rep string) time.Time {
+	var out time.Time
+	switch rep {
+	case "":
+		return tm
+	case "unix-local": // what time.Unix returns: the process's local zone (a non-nil location even when that zone is UTC)
+		out = time.Unix(tm.Unix(), int64(tm.Nanosecond()))
+	case "mono": // derived from time.Now(): carries a monotonic clock reading
+		now := time.Now()
+		out = now.Add(tm.Sub(now))
+	case "zone":
+		out = tm.In(time.FixedZone("verif+01", 3600))
+	case "json-zone": // a non-UTC time after a JSON round trip
+		b, _ := json.Marshal(tm.In(time.FixedZone("verif-05", -5*3600)))
+		_ = json.Unmarshal(b, &out)
+	default:
+		panic("time representation " + rep)
+	}
+	if !out.Equal(tm) {
+		panic("harness: representation " + rep + " changed the instant")
+	}
+	return out
+}
+
+// withRep assigns time representations to the events of a set: "local" = all unix-local, "mixed" = a different one per event.
+func withRep(evs []evSpec, scheme string) []evSpec {
+	cycle := []string{"mono", "zone", "unix-local", "json-zone", ""}
+	out := append([]evSpec{}, evs...)
+	for i := range out {
+		switch scheme {
+		case "local":
+			out[i].Rep = "unix-local"
+		case "mixed":
+			out[i].Rep = cycle[i%len(cycle)]
+		}
+	}
+	return out
+}
+
 // ------------------------------------------------------------------ compiled scenario
 
 type cEvent struct {
@@ -196,7 +238,7 @@ func compile(t *testing.T, sc scenario) *compiled {
 		ce.tx = didstore.Transaction{
 			Ref:         refOf(sc.Name, i, e.Rank),
 			PayloadHash: hash.SHA256Sum(ce.payload),
-			SigningTime: t0.Add(time.Duration(e.TimeOff) * time.Second),
+			SigningTime: represent(t0.Add(time.Duration(e.TimeOff)*time.Second), e.Rep),
 			Clock:       clock,
 			Previous:    prevs,
 		}
@@ -238,6 +280,18 @@ func (c *compiled) heads(d int) []string {
 	}
 	sort.Strings(out)
 	return out
+}
+
+// deactivationTime: the earliest signing time of a deactivation of DID d in the set.
+func (c *compiled) deactivationTime(d int) (time.Time, bool) {
+	var T time.Time
+	ok := false
+	for _, e := range c.events {
+		if e.did == d && e.spec.Doc.Deact && (!ok || e.tx.SigningTime.Before(T)) {
+			T, ok = e.tx.SigningTime, true
+		}
+	}
+	return T, ok
 }
 
 func (c *compiled) hasDeactivation(d int) bool {
@@ -493,7 +547,7 @@ func generate(thorough bool) []scenario {
 							continue
 						}
 						for _, p := range pals {
-							if !full && p != "mixed" && p != "svc-sparse" && p != "ctrl3" {
+							if !full && p != "mixed" {
 								continue
 							}
 							d := dims{tm, rk, bump, p, 0}
@@ -505,6 +559,23 @@ func generate(thorough bool) []scenario {
 						}
 					}
 				}
+			}
+		}
+	}
+	// block R: the representation of the signing time as a dimension (n = 2..4, every shape): the same instants as
+	// unix-local times / mixed representations (monotonic reading, fixed zones, JSON round trip), on tied (eq) and
+	// increasing signing times, both tie-break directions
+	for n := 2; n <= 4; n++ {
+		for _, sh := range shapes(n, n) {
+			for _, rep := range []string{"local", "mixed"} {
+				for _, rk := range ranks {
+					for _, p := range []string{"mixed", "svc-sparse"} {
+						d := dims{"eq", rk, 0, p, 0}
+						add(fmt.Sprintf("R%d%s/%s/rep-%s", n, shapeName(sh), d, rep), withRep(oneDID(0, 0, sh, d), rep))
+					}
+				}
+				d := dims{"inc", "asc", 0, "mixed", 0}
+				add(fmt.Sprintf("R%d%s/%s/rep-%s", n, shapeName(sh), d, rep), withRep(oneDID(0, 0, sh, d), rep))
 			}
 		}
 	}
